@@ -85,8 +85,45 @@ func ResolveParamFields(p *Prog) {
 		})
 	}
 	for _, f := range p.Funcs {
-		if f.Parent() != nil || f.Object() == nil || f.Object().Exported() || len(f.Params) < 2 {
+		if f.Parent() != nil || f.Object() == nil || f.Object().Exported() || len(f.Params) < 1 {
 			continue
+		}
+		// a function that is handed only the channel (`go runPosted(ioCh)` right after `h := &T{ch: ioCh}`): the
+		// parameter is that field of the object being built, without an owner to name
+		if _, isCh := f.Params[0].Type().Underlying().(*types.Chan); isCh && f.Signature.Recv() == nil {
+			sites, complete := CallSites(p, f)
+			key := ""
+			if !complete || len(sites) == 0 {
+				key = "-"
+			}
+			for _, s := range sites {
+				ci, isCI := s.Instr.(ssa.CallInstruction)
+				if key == "-" || !isCI || s.Outer != nil || len(ci.Common().Args) < 1 || Callee(ci.Common()) != f {
+					key = "-"
+					break
+				}
+				a := Unwrap(ci.Common().Args[0])
+				k := ""
+				Instrs(s.Caller, func(ins ssa.Instruction) {
+					st, ok := ins.(*ssa.Store)
+					if !ok || Unwrap(st.Val) != a || !InstrDominates(st, s.Instr) {
+						return
+					}
+					if fa, isFA := st.Addr.(*ssa.FieldAddr); isFA {
+						if _, fresh := Resolve(FieldOwner(fa)).(*ssa.Alloc); fresh {
+							k = FieldKey(fa)
+						}
+					}
+				})
+				if k == "" || !frozen[k] || (key != "" && key != k) {
+					key = "-"
+					break
+				}
+				key = k
+			}
+			if key != "" && key != "-" {
+				paramAsField[f.Params[0]] = paramField{key, nil}
+			}
 		}
 		for i := 1; i < len(f.Params); i++ {
 			if _, isCh := f.Params[i].Type().Underlying().(*types.Chan); !isCh {
@@ -511,7 +548,7 @@ func FieldBase(v ssa.Value) string {
 	for i := 0; i < 20; i++ {
 		switch x := v.(type) {
 		case *ssa.Parameter:
-			if e, ok := paramAsField[x]; ok {
+			if e, ok := paramAsField[x]; ok && e.owner != nil {
 				return e.owner.Name()
 			}
 			return ""
